@@ -178,6 +178,8 @@ type World struct {
 	rng   *rand.Rand
 	fms   map[string]*managedfields.FieldManager
 	sched *Scheduler
+	// kinds whose CRD was deleted: requests for them fail like an unknown kind
+	unserved map[schema.GroupKind]bool
 
 	// KeepBodies makes the trace keep before/after copies of objects (needed by most monitors).
 	KeepBodies bool
@@ -193,6 +195,7 @@ func NewWorld(scheme *runtime.Scheme, seed uint64) *World {
 		idx:        map[schema.GroupKind]map[string]client.IndexerFunc{},
 		rng:        rand.New(rand.NewPCG(seed, 0x5eed)),
 		fms:        map[string]*managedfields.FieldManager{},
+		unserved:   map[schema.GroupKind]bool{},
 		KeepBodies: true,
 		rv:         100,
 	}
@@ -403,11 +406,19 @@ func (w *World) now() string {
 }
 
 func (w *World) put(k Key, o map[string]any) {
+	if k.Kind == "CustomResourceDefinition" && k.Group == "apiextensions.k8s.io" {
+		delete(w.unserved, schema.GroupKind{Group: str(o, "spec", "group"), Kind: str(o, "spec", "names", "kind")})
+	}
 	w.objs[k] = o
 	w.hist[k] = append(w.hist[k], version{rv: w.rv, obj: o})
 }
 
 func (w *World) remove(k Key) {
+	if o := w.objs[k]; o != nil && k.Kind == "CustomResourceDefinition" && k.Group == "apiextensions.k8s.io" {
+		// the kind is no longer served: its instances (if any are left in storage) become
+		// unreachable and nothing can be created until the CRD exists again
+		w.unserved[schema.GroupKind{Group: str(o, "spec", "group"), Kind: str(o, "spec", "names", "kind")}] = true
+	}
 	delete(w.objs, k)
 	w.rv++
 	w.hist[k] = append(w.hist[k], version{rv: w.rv, obj: nil})
@@ -567,6 +578,9 @@ func (w *World) Clone() *World {
 		}
 	}
 	n.admit = append(n.admit, w.admit...)
+	for gk := range w.unserved {
+		n.unserved[gk] = true
+	}
 	return n
 }
 
